@@ -26,9 +26,9 @@ func (c19) Assumptions() []string {
 		"totality is decided by recover() plus the worker's wall-clock watchdog (the parser has no interface to count steps on; its loops are bounded by the input length)",
 	}
 }
-func (c19) fuzzCount(tier string) int     { return tierN(tier, 3000, 300000) } // x64 strings
-func (c19) faithCount(tier string) int    { return tierN(tier, 20000, 1000000) }
-func (c19) e2eCount(tier string) int      { return tierN(tier, 600, 20000) }
+func (c19) fuzzCount(tier string) int     { return tierN(tier, 3000, 1500000) } // x64 strings
+func (c19) faithCount(tier string) int    { return tierN(tier, 20000, 5000000) }
+func (c19) e2eCount(tier string) int      { return tierN(tier, 600, 200000) }
 func (p c19) NumCases(tier string) int    { return p.fuzzCount(tier) + p.faithCount(tier) + p.e2eCount(tier) }
 func (c19) MinNontrivial(tier string) int { return tierN(tier, 2000, 20000) }
 
@@ -115,7 +115,10 @@ func (p c19) fuzz(c *core.Ctx) {
 			return
 		}
 		if nargs >= 1 {
-			c.Nontrivial(s)
+			c.Count("fuzz_strings_parsed_to_arguments", 1)
+			if k == 0 {
+				c.Nontrivial(s)
+			}
 		}
 	}
 }
